@@ -401,6 +401,22 @@ class IntroVisitor(ast.NodeVisitor):
     def visit_FunctionDef(self, node: ast.FunctionDef) -> Any:
         visit_inner_scope(self, node, self._function_var_names)
 
+    def _context_of_what_precedes(self) -> Optional[PyHash]:
+        """
+        The interactions and the loads met so far in the body: what a call with run-time arguments, or a function
+        that is only named, may depend on (a loaded value may be handed to it).
+        """
+        # One entry per path: the combination is an xor, two equal entries would cancel out.
+        loaded_so_far: Dict[DDSPath, PyHash] = {}
+        for loaded_path in self.load_paths:
+            loaded_sig = self._gctx.resolved_references.get(loaded_path)
+            if loaded_sig is not None:
+                loaded_so_far[loaded_path] = loaded_sig
+        return dds_hash_commut(
+            _fis_to_siglist(self.inters)
+            + [(HK(f"dep_{p_}"), s_) for (p_, s_) in loaded_so_far.items()]
+        )
+
     def visit_Call(self, node: ast.Call) -> Any:
         # _logger.debug(f"visit_Call: {node} {dir(node)} {pformat(node)}")
         # We have visited this call. No need to look at it by-name anymore.
@@ -430,15 +446,7 @@ class IntroVisitor(ast.NodeVisitor):
         # This enforces the concept that the current call depends on previous calls.
         # The paths loaded so far are part of what precedes the call: a loaded value may be handed to it.
         # (One entry per path: the combination is an xor, two equal entries would cancel out.)
-        loaded_so_far: Dict[DDSPath, PyHash] = {}
-        for loaded_path in self.load_paths:
-            loaded_sig = self._gctx.resolved_references.get(loaded_path)
-            if loaded_sig is not None:
-                loaded_so_far[loaded_path] = loaded_sig
-        function_inters_sig: Optional[PyHash] = dds_hash_commut(
-            _fis_to_siglist(self.inters)
-            + [(HK(f"dep_{p_}"), s_) for (p_, s_) in loaded_so_far.items()]
-        )
+        function_inters_sig: Optional[PyHash] = self._context_of_what_precedes()
         # Check the call for dds calls or sub_calls.
         fi_or_p = InspectFunction.inspect_call(
             node,
@@ -482,9 +490,7 @@ class IntroVisitor(ast.NodeVisitor):
         self._store_names.add(LocalVar(dotted))
         call_node = ast.Call(func=node, args=[], keywords=[], starargs=None, kwargs=None)
         function_body_hash = dds_hash(self._body_lines[: node.lineno + 1])
-        function_inters_sig: Optional[PyHash] = dds_hash_commut(
-            _fis_to_siglist(self.inters)
-        )
+        function_inters_sig: Optional[PyHash] = self._context_of_what_precedes()
         fi_or_p = InspectFunction.inspect_call(
             call_node,
             self._gctx,
@@ -535,9 +541,7 @@ class IntroVisitor(ast.NodeVisitor):
                 function_body_hash = dds_hash(self._body_lines[: node.lineno + 1])
                 # The list of all the previous interactions.
                 # This enforces the concept that the current call depends on previous calls.
-                function_inters_sig: Optional[PyHash] = dds_hash_commut(
-                    _fis_to_siglist(self.inters)
-                )
+                function_inters_sig: Optional[PyHash] = self._context_of_what_precedes()
                 # Check the call for dds calls or sub_calls.
                 fi_or_p = InspectFunction.inspect_call(
                     call_node,
